@@ -146,6 +146,19 @@ func c06Failing(t *rapid.T) kit.Argv {
 		[]string{"NOSUCHCOMMAND", "ks"}, []string{"EXPIRE", "ks", "abc"}, []string{"EXPIRE", "ks", "100", "ZZ"}, []string{"INCRBYFLOAT", "ks1", "1"},
 		[]string{"MSET", "ks", "1", "kl"}, []string{"LINSERT", "kl", "MIDDLE", "1", "q"}, []string{"LMOVE", "kl", "kl1", "UP", "LEFT"},
 		[]string{"GETRANGE", "ks", "a", "1"}, []string{"LINDEX", "kl", "x"}, []string{"HRANDFIELD", "kh", "x"},
+		// commands that fail (or do nothing) on a key that does not exist: they must not leave a key behind
+		[]string{"HINCRBYFLOAT", "kmiss", "f", "inf"}, []string{"HINCRBYFLOAT", "kmiss", "f", "-inf"}, []string{"HINCRBYFLOAT", "kmiss", "f", "nan"}, []string{"HINCRBYFLOAT", "kmiss", "f", "abc"},
+		[]string{"HINCRBY", "kmiss", "f", "abc"}, []string{"HINCRBY", "kmiss", "f", "9223372036854775808"}, []string{"INCRBYFLOAT", "kmiss", "inf"}, []string{"INCRBYFLOAT", "kmiss", "nan"},
+		[]string{"INCRBY", "kmiss", "abc"}, []string{"SETRANGE", "kmiss", "-1", "q"}, []string{"SETRANGE", "kmiss", "536870912", "q"}, []string{"SETRANGE", "kmiss", "5", ""},
+		[]string{"SETBIT", "kmiss", "1", "2"}, []string{"SETBIT", "kmiss", "-1", "1"}, []string{"SETBIT", "kmiss", "4294967296", "1"}, []string{"LINSERT", "kmiss", "BEFORE", "p", "q"},
+		[]string{"LPUSHX", "kmiss", "q"}, []string{"RPUSHX", "kmiss", "q"}, []string{"LMOVE", "kmiss", "kmiss2", "LEFT", "RIGHT"}, []string{"RPOPLPUSH", "kmiss", "kmiss2"}, []string{"SMOVE", "kmiss", "kmiss2", "m"},
+		[]string{"SMOVE", "kz", "kmiss2", "not-a-member"}, []string{"SETEX", "kmiss", "0", "v"}, []string{"PSETEX", "kmiss", "-1", "v"}, []string{"SET", "kmiss", "v", "EX", "0"}, []string{"SET", "kmiss", "v", "XX"},
+		[]string{"BITFIELD", "kmiss", "SET", "u8", "0"}, []string{"BITFIELD", "kmiss", "INCRBY", "u8", "0", "abc"}, []string{"BITFIELD", "kmiss", "SET", "u65", "0", "1"}, []string{"BITFIELD", "kmiss", "GET", "u8", "0"},
+		[]string{"BITFIELD", "kmiss", "OVERFLOW", "FAIL", "INCRBY", "u2", "0", "5"}, []string{"HSETNX", "kmiss", "f"}, []string{"HDEL", "kmiss", "f"}, []string{"SREM", "kmiss", "m"}, []string{"LREM", "kmiss", "0", "x"},
+		[]string{"LTRIM", "kmiss", "0", "1"}, []string{"GETEX", "kmiss", "EX", "100"}, []string{"EXPIRE", "kmiss", "100"}, []string{"PERSIST", "kmiss"}, []string{"COPY", "kmiss", "kmiss2"}, []string{"SORT", "kmiss", "STORE", "kmiss2"},
+		[]string{"SINTERSTORE", "kmiss2", "kmiss", "kz"}, []string{"SDIFFSTORE", "kmiss2", "kmiss"}, []string{"BITOP", "AND", "kmiss2", "kmiss"}, []string{"BITOP", "NOT", "kmiss2", "kmiss"}, []string{"APPEND", "kmiss", ""},
+		[]string{"RESTORE", "kmiss", "0", "garbage"}, []string{"RESTORE", "kmiss", "-1", "\x01\x01\x00\x00\x00\x02a\x00\x00\x00\x00\x00\x00\x00\x00"}, []string{"LSET", "kmiss", "0", "q"}, []string{"LPOP", "kmiss", "0"},
+		[]string{"MSETNX", "kmiss", "1", "ks", "2"}, []string{"HSET", "kmiss", "f", "v", "g"}, []string{"SADD", "kmiss"}, []string{"LPUSH", "kmiss"}, []string{"HMSET", "kmiss", "f"},
 	)...)
 }
 
